@@ -156,28 +156,47 @@ def modSheet (s : State) (i : Nat) (f : Sheet → Sheet) : State :=
 def setView (s : State) (v : View) : State :=
   { s with sheets := modifyAt s.sheets s.selected (fun sh => { sh with view := v }) }
 
-/-- models ui.rs::set_selected_cell -/
-def selCell (s : State) (r c : Int) : State :=
-  if validCol c && validRow r then
-    match s.sheets[s.selected]? with
-    | some sh => setView s { sh.view with row := r, col := c, r1 := r, c1 := c, r2 := r, c2 := c }
+/-- the common shape of the ui.rs commands: look up the selected sheet (nothing happens when it
+    does not exist), compute the new view from it (`none` = the command returns early or fails
+    before writing), write the view -/
+def viewOp (s : State) (f : Sheet → Option View) : State :=
+  match s.sheets[s.selected]? with
+  | none => s
+  | some sh =>
+    match f sh with
     | none => s
-  else s
+    | some v => setView s v
+
+/-- loop fuels: more than the number of rows / columns, so that the bounded loops below run exactly
+    as long as the `while` loops they model (which stop, at the latest, on an index off the grid) -/
+@[irreducible] def rowFuel : Nat := 1048578
+@[irreducible] def colFuel : Nat := 16386
+
+/-- models ui.rs::set_selected_cell -/
+def cellView (v : View) (r c : Int) : Option View :=
+  if validCol c && validRow r then some { v with row := r, col := c, r1 := r, c1 := c, r2 := r, c2 := c }
+  else none
+
+def selCell (s : State) (r c : Int) : State := viewOp s fun sh => cellView sh.view r c
 
 /-- models ui.rs::set_selected_range: the four coordinates are validated; the selected cell must
     be on a corner (on one edge for full-row / full-column ranges) -/
-def selRange (s : State) (r1 c1 r2 c2 : Int) : State :=
+def rangeView (v : View) (r1 c1 r2 c2 : Int) : Option View :=
   if validCol c1 && validRow r1 && validCol c2 && validRow r2 then
-    match s.sheets[s.selected]? with
-    | some sh =>
-      let v := sh.view
-      let ok :=
-        if r1 = 1 ∧ r2 = LAST_ROW then decide (v.col = c1 ∨ v.col = c2)
-        else if c1 = 1 ∧ c2 = LAST_COLUMN then decide (v.row = r1 ∨ v.row = r2)
-        else decide (v.row = r1 ∨ v.row = r2) && decide (v.col = c1 ∨ v.col = c2)
-      if ok then setView s { v with r1 := r1, c1 := c1, r2 := r2, c2 := c2 } else s
-    | none => s
-  else s
+    let ok :=
+      if r1 = 1 ∧ r2 = LAST_ROW then decide (v.col = c1 ∨ v.col = c2)
+      else if c1 = 1 ∧ c2 = LAST_COLUMN then decide (v.row = r1 ∨ v.row = r2)
+      else decide (v.row = r1 ∨ v.row = r2) && decide (v.col = c1 ∨ v.col = c2)
+    if ok then some { v with r1 := r1, c1 := c1, r2 := r2, c2 := c2 } else none
+  else none
+
+def selRange (s : State) (r1 c1 r2 c2 : Int) : State := viewOp s fun sh => rangeView sh.view r1 c1 r2 c2
+
+/-- models ui.rs::set_top_left_visible_cell -/
+def topLeftView (v : View) (r c : Int) : Option View :=
+  if validCol c && validRow r then some { v with top := r, left := c } else none
+
+def setTopLeft (s : State) (r c : Int) : State := viewOp s fun sh => topLeftView sh.view r c
 
 /-! ### geometry and hidden rows / columns -/
 
@@ -218,59 +237,44 @@ def skipHidden (hid : List Int) (last step : Int) : Nat → Int → Int
 /-- the row / column an arrow key lands on (before the validity check) -/
 def arrowTarget (sh : Sheet) (d : Dir) : Int :=
   match d with
-  | .right => skipHidden sh.hidCols LAST_COLUMN 1 16385 (sh.view.col + 1)
-  | .left => skipHidden sh.hidCols LAST_COLUMN (-1) 16385 (sh.view.col - 1)
-  | .down => skipHidden sh.hidRows LAST_ROW 1 1048577 (sh.view.row + 1)
-  | .up => skipHidden sh.hidRows LAST_ROW (-1) 1048577 (sh.view.row - 1)
+  | .right => skipHidden sh.hidCols LAST_COLUMN 1 colFuel (sh.view.col + 1)
+  | .left => skipHidden sh.hidCols LAST_COLUMN (-1) colFuel (sh.view.col - 1)
+  | .down => skipHidden sh.hidRows LAST_ROW 1 rowFuel (sh.view.row + 1)
+  | .up => skipHidden sh.hidRows LAST_ROW (-1) rowFuel (sh.view.row - 1)
 
 def Dir.horizontal : Dir → Bool
   | .left | .right => true
   | _ => false
 
-/-- models ui.rs::on_arrow_right / on_arrow_left / on_arrow_up / on_arrow_down, with their scrolling:
-    right: if the columns `left_column ..= new` are wider than the window, `left_column += 1` (a failing
-    width lookup aborts the key press); left / up: scroll so that the new cell is the first visible;
-    down: rows `top_row ..= min (new + 1) LAST_ROW` against the window height -/
-def arrow (s : State) (d : Dir) : State :=
-  match s.sheets[s.selected]? with
-  | none => s
-  | some sh =>
-    let v := sh.view
-    let x := arrowTarget sh d
-    if d.horizontal then
-      if validCol x then
-        match d with
-        | .right =>
-          match sumRange (colW? sh) v.left x with
-          | none => s
-          | some w =>
-            setView s { v with col := x, r1 := v.row, c1 := x, r2 := v.row, c2 := x,
-                               left := if w > s.winW then v.left + 1 else v.left }
-        | _ =>
-          setView s { v with col := x, r1 := v.row, c1 := x, r2 := v.row, c2 := x,
-                             left := if x < v.left then x else v.left }
-      else s
-    else
-      if validRow x then
-        match d with
-        | .down =>
-          match sumRange (rowH? sh) v.top (min (x + 1) LAST_ROW) with
-          | none => s
-          | some h =>
-            setView s { v with row := x, r1 := x, c1 := v.col, r2 := x, c2 := v.col,
-                               top := if h > s.winH then v.top + 1 else v.top }
-        | _ =>
-          setView s { v with row := x, r1 := x, c1 := v.col, r2 := x, c2 := v.col,
-                             top := if x < v.top then x else v.top }
-      else s
+/-- the scroll position after an arrow key.  right: if the columns `left_column ..= new` are wider
+    than the window, `left_column += 1` (a failing width lookup aborts the key press); left / up: the
+    new cell becomes the first visible one when it is before it; down: rows
+    `top_row ..= min (new + 1) LAST_ROW` against the window height -/
+def arrowScroll (winW winH : Int) (sh : Sheet) (d : Dir) (x : Int) : Option Int :=
+  let v := sh.view
+  match d with
+  | .right => (sumRange (colW? sh) v.left x).map fun w => if w > winW then v.left + 1 else v.left
+  | .left => some (if x < v.left then x else v.left)
+  | .down =>
+    (sumRange (rowH? sh) v.top (min (x + 1) LAST_ROW)).map fun h => if h > winH then v.top + 1 else v.top
+  | .up => some (if x < v.top then x else v.top)
 
-/-- models ui.rs::set_top_left_visible_cell -/
-def setTopLeft (s : State) (r c : Int) : State :=
-  if validCol c && validRow r then
-    match s.sheets[s.selected]? with
-    | some sh => setView s { sh.view with top := r, left := c }
-    | none => s
-  else s
+/-- models ui.rs::on_arrow_right / on_arrow_left / on_arrow_up / on_arrow_down -/
+def arrowView (winW winH : Int) (sh : Sheet) (d : Dir) : Option View :=
+  let v := sh.view
+  let x := arrowTarget sh d
+  if d.horizontal then
+    if validCol x then
+      (arrowScroll winW winH sh d x).map fun l =>
+        { v with col := x, r1 := v.row, c1 := x, r2 := v.row, c2 := x, left := l }
+    else none
+  else
+    if validRow x then
+      (arrowScroll winW winH sh d x).map fun t =>
+        { v with row := x, r1 := x, c1 := v.col, r2 := x, c2 := v.col, top := t }
+    else none
+
+def arrow (s : State) (d : Dir) : State := viewOp s fun sh => arrowView s.winW s.winH sh d
 
 /-- the second loop of `on_area_selecting`: `while size > window { size -= f first; first += 1 }` -/
 def shrinkFrom (f : Int → Option Int) (win : Int) : Nat → Int → Int → Option Int
@@ -294,17 +298,13 @@ def areaScroll (f : Int → Option Int) (win first cell target : Int) (fuel : Na
 /-- models ui.rs::on_area_selecting: the range keeps its *start* and ends at the target; neither the
     target nor the position of the selected cell is checked; the scroll position follows the target
     (a size lookup off the grid aborts the call before anything is written) -/
-def area (s : State) (r c : Int) : State :=
-  match s.sheets[s.selected]? with
-  | none => s
-  | some sh =>
-    let v := sh.view
-    match areaScroll (colW? sh) s.winW v.left v.col c 16386 with
-    | none => s
-    | some newLeft =>
-      match areaScroll (rowH? sh) s.winH v.top v.row r 1048578 with
-      | none => s
-      | some newTop => setView s { v with r2 := r, c2 := c, top := newTop, left := newLeft }
+def areaView (winW winH : Int) (sh : Sheet) (r c : Int) : Option View :=
+  let v := sh.view
+  (areaScroll (colW? sh) winW v.left v.col c colFuel).bind fun newLeft =>
+    (areaScroll (rowH? sh) winH v.top v.row r rowFuel).map fun newTop =>
+      { v with r2 := r, c2 := c, top := newTop, left := newLeft }
+
+def area (s : State) (r c : Int) : State := viewOp s fun sh => areaView s.winW s.winH sh r c
 
 /-! ### page up / page down -/
 
@@ -335,36 +335,23 @@ def pageRow (v : View) (newTop : Int) : Int := max 1 (min LAST_ROW (newTop + (v.
 /-- the pinned tree's rule: no clamping -/
 def pageRowPinned (v : View) (newTop : Int) : Int := newTop + (v.row - v.top)
 
-def pageTo (s : State) (v : View) (rowOf : View → Int → Int) (newTop : Int) : State :=
-  let r := rowOf v newTop
-  setView s { v with top := newTop, row := r, r1 := r, c1 := v.col, r2 := r, c2 := v.col }
+def pageView (v : View) (rowOf : View → Int → Int) (newTop : Int) : View :=
+  { v with top := newTop, row := rowOf v newTop, r1 := rowOf v newTop, c1 := v.col,
+           r2 := rowOf v newTop, c2 := v.col }
 
 /-- models ui.rs::on_page_down (parametric in the row rule, to state the pinned behaviour too) -/
-def pageDownWith (rowOf : View → Int → Int) (s : State) : State :=
-  match s.sheets[s.selected]? with
-  | none => s
-  | some sh =>
-    let v := sh.view
-    match rowH? sh v.top with
-    | none => s
-    | some h0 =>
-      match pageDownLoop (rowH? sh) s.winH 1048578 v.top h0 with
-      | none => s
-      | some last => if validRow last then pageTo s v rowOf last else s
+def pageDownView (rowOf : View → Int → Int) (winH : Int) (sh : Sheet) : Option View :=
+  (rowH? sh sh.view.top).bind fun h0 =>
+    (pageDownLoop (rowH? sh) winH rowFuel sh.view.top h0).bind fun last =>
+      if validRow last then some (pageView sh.view rowOf last) else none
 
 /-- models ui.rs::on_page_up -/
-def pageUpWith (rowOf : View → Int → Int) (s : State) : State :=
-  match s.sheets[s.selected]? with
-  | none => s
-  | some sh =>
-    let v := sh.view
-    match rowH? sh v.top with
-    | none => s
-    | some h0 =>
-      match pageUpLoop (rowH? sh) s.winH 1048578 v.top h0 with
-      | none => s
-      | some first => pageTo s v rowOf first
+def pageUpView (rowOf : View → Int → Int) (winH : Int) (sh : Sheet) : Option View :=
+  (rowH? sh sh.view.top).bind fun h0 =>
+    (pageUpLoop (rowH? sh) winH rowFuel sh.view.top h0).map fun first => pageView sh.view rowOf first
 
+def pageDownWith (rowOf : View → Int → Int) (s : State) : State := viewOp s (pageDownView rowOf s.winH)
+def pageUpWith (rowOf : View → Int → Int) (s : State) : State := viewOp s (pageUpView rowOf s.winH)
 def pageDown : State → State := pageDownWith pageRow
 def pageUp : State → State := pageUpWith pageRow
 
@@ -394,10 +381,10 @@ def edgeTarget (sh : Sheet) (d : Dir) (start : Int × Int) : Int × Int :=
   | none => start
   | some nb =>
     if !(nonEmpty start) || !(nonEmpty nb) then
-      match walk nonEmpty d 1048578 start (stepDir d start) with
+      match walk nonEmpty d rowFuel start (stepDir d start) with
       | (some c, _) => c
       | (none, prev) => prev
-    else (walk (fun p => !(nonEmpty p)) d 1048578 start (stepDir d start)).2
+    else (walk (fun p => !(nonEmpty p)) d rowFuel start (stepDir d start)).2
 
 /-- `c = new; size = f c?; while c > 1 && size <= window { c -= 1; size += f c? }` of the edge scroll -/
 def backLoop (f : Int → Option Int) (win : Int) : Nat → Int → Int → Option Int
@@ -412,34 +399,27 @@ def backLoop (f : Int → Option Int) (win : Int) : Nat → Int → Int → Opti
 def edgeScroll (f : Int → Option Int) (win first new : Int) (fuel : Nat) : Option Int :=
   if new < first then some new
   else
-    match f new with
-    | none => none
-    | some a =>
-      match backLoop f win fuel new a with
-      | none => none
-      | some c => some (if c > first then c else first)
+    (f new).bind fun a =>
+      (backLoop f win fuel new a).map fun c => if c > first then c else first
 
 /-- models ui.rs::on_navigate_to_edge_in_direction -/
-def edge (s : State) (d : Dir) : State :=
-  match s.sheets[s.selected]? with
-  | none => s
-  | some sh =>
-    let v := sh.view
-    if validRow v.row && validCol v.col then
-      let p := edgeTarget sh d (v.row, v.col)
-      if validRow p.1 && validCol p.2 then
-        if p.1 = v.row ∧ p.2 = v.col then s
-        else
-          let scrolled : Option (Int × Int) :=
-            if d.horizontal then (edgeScroll (colW? sh) s.winW v.left p.2 16386).map fun l => (v.top, l)
-            else (edgeScroll (rowH? sh) s.winH v.top p.1 1048578).map fun t => (t, v.left)
-          match scrolled with
-          | none => s
-          | some (t, l) =>
-            setView s { v with row := p.1, col := p.2, r1 := p.1, c1 := p.2, r2 := p.1, c2 := p.2,
-                               top := t, left := l }
-      else s
-    else s
+def edgeView (winW winH : Int) (sh : Sheet) (d : Dir) : Option View :=
+  let v := sh.view
+  if validRow v.row && validCol v.col then
+    let p := edgeTarget sh d (v.row, v.col)
+    if validRow p.1 && validCol p.2 then
+      if p.1 = v.row ∧ p.2 = v.col then none
+      else
+        let scrolled : Option (Int × Int) :=
+          if d.horizontal then (edgeScroll (colW? sh) winW v.left p.2 colFuel).map fun l => (v.top, l)
+          else (edgeScroll (rowH? sh) winH v.top p.1 rowFuel).map fun t => (t, v.left)
+        scrolled.map fun tl =>
+          { v with row := p.1, col := p.2, r1 := p.1, c1 := p.2, r2 := p.1, c2 := p.2,
+                   top := tl.1, left := tl.2 }
+    else none
+  else none
+
+def edge (s : State) (d : Dir) : State := viewOp s fun sh => edgeView s.winW s.winH sh d
 
 /-! ### keyboard range expansion -/
 
@@ -464,89 +444,66 @@ def skipDown (hid : Int → Option Bool) : Nat → Int → Option Int
       | some false => some x
     else some x
 
+/-- `set_top_left_visible_cell(t, l)?` followed by `set_selected_range(…)?`: the scroll position is
+    written first and stays when the range is refused -/
+def scrolledRange (v : View) (t l : Int) (r1 c1 r2 c2 : Int) : Option View :=
+  (topLeftView v t l).map fun v' => (rangeView v' r1 c1 r2 c2).getD v'
+
 /-- models ui.rs::on_expand_selected_range (shift + arrow).  The selection goes through
-    `set_selected_range`, so it is validated; scrolling happens before that call and survives its
-    failure. -/
-def expand (s : State) (d : Dir) : State :=
-  match s.sheets[s.selected]? with
-  | none => s
-  | some sh =>
-    let v := sh.view
-    if (!d.horizontal) && v.r1 = 1 && v.r2 = LAST_ROW then s
-    else if d.horizontal && v.c1 = 1 && v.c2 = LAST_COLUMN then s
-    else
-      match d with
-      | .right =>
-        if v.col > v.c1 then
-          match skipUp (colHidden? sh) LAST_COLUMN 16386 (v.c1 + 1) with
-          | none => s
-          | some n => if validCol n then selRange s v.r1 n v.r2 v.c2 else s
-        else
-          match skipUp (colHidden? sh) LAST_COLUMN 16386 (v.c2 + 1) with
-          | none => s
-          | some n =>
-            if validCol n then
-              match sumRange (colW? sh) v.left n with
-              | none => s
-              | some w =>
-                if w > s.winW then
-                  if validCol (v.left + 1) && validRow v.top then
-                    selRange (setTopLeft s v.top (v.left + 1)) v.r1 v.c1 v.r2 n
-                  else s
-                else selRange s v.r1 v.c1 v.r2 n
-            else s
-      | .left =>
-        if v.col < v.c2 then
-          match skipDown (colHidden? sh) 16386 (v.c2 - 1) with
-          | none => s
-          | some n =>
-            if validCol n then
-              if n < v.left then
-                if validRow v.top then selRange (setTopLeft s v.top n) v.r1 v.c1 v.r2 n else s
-              else selRange s v.r1 v.c1 v.r2 n
-            else s
-        else
-          match skipDown (colHidden? sh) 16386 (v.c1 - 1) with
-          | none => s
-          | some n =>
-            if validCol n then
-              if n < v.left then
-                if validRow v.top then selRange (setTopLeft s v.top n) v.r1 n v.r2 v.c2 else s
-              else selRange s v.r1 n v.r2 v.c2
-            else s
-      | .up =>
-        if v.row < v.r2 then
-          match skipDown (rowHidden? sh) 1048578 (v.r2 - 1) with
-          | none => s
-          | some n => if validRow n then selRange s v.r1 v.c1 n v.c2 else s
-        else
-          match skipDown (rowHidden? sh) 1048578 (v.r1 - 1) with
-          | none => s
-          | some n =>
-            if validRow n then
-              if n < v.top then
-                if validCol v.left then selRange (setTopLeft s n v.left) n v.c1 v.r2 v.c2 else s
-              else selRange s n v.c1 v.r2 v.c2
-            else s
-      | .down =>
-        if v.row > v.r1 then
-          match skipUp (rowHidden? sh) LAST_ROW 1048578 (v.r1 + 1) with
-          | none => s
-          | some n => if validRow n then selRange s n v.c1 v.r2 v.c2 else s
-        else
-          match skipUp (rowHidden? sh) LAST_ROW 1048578 (v.r2 + 1) with
-          | none => s
-          | some n =>
-            if validRow n then
-              match sumRange (rowH? sh) v.top (n + 1) with
-              | none => s
-              | some h =>
-                if h ≥ s.winH then
-                  if validCol v.left && validRow (v.top + 1) then
-                    selRange (setTopLeft s (v.top + 1) v.left) v.r1 v.c1 n v.c2
-                  else s
-                else selRange s v.r1 v.c1 n v.c2
-            else s
+    `set_selected_range`, so it is validated -/
+def expandView (winW winH : Int) (sh : Sheet) (d : Dir) : Option View :=
+  let v := sh.view
+  if (!d.horizontal) && v.r1 = 1 && v.r2 = LAST_ROW then none
+  else if d.horizontal && v.c1 = 1 && v.c2 = LAST_COLUMN then none
+  else
+    match d with
+    | .right =>
+      if v.col > v.c1 then
+        (skipUp (colHidden? sh) LAST_COLUMN colFuel (v.c1 + 1)).bind fun n =>
+          if validCol n then rangeView v v.r1 n v.r2 v.c2 else none
+      else
+        (skipUp (colHidden? sh) LAST_COLUMN colFuel (v.c2 + 1)).bind fun n =>
+          if validCol n then
+            (sumRange (colW? sh) v.left n).bind fun w =>
+              if w > winW then scrolledRange v v.top (v.left + 1) v.r1 v.c1 v.r2 n
+              else rangeView v v.r1 v.c1 v.r2 n
+          else none
+    | .left =>
+      if v.col < v.c2 then
+        (skipDown (colHidden? sh) colFuel (v.c2 - 1)).bind fun n =>
+          if validCol n then
+            if n < v.left then scrolledRange v v.top n v.r1 v.c1 v.r2 n
+            else rangeView v v.r1 v.c1 v.r2 n
+          else none
+      else
+        (skipDown (colHidden? sh) colFuel (v.c1 - 1)).bind fun n =>
+          if validCol n then
+            if n < v.left then scrolledRange v v.top n v.r1 n v.r2 v.c2
+            else rangeView v v.r1 n v.r2 v.c2
+          else none
+    | .up =>
+      if v.row < v.r2 then
+        (skipDown (rowHidden? sh) rowFuel (v.r2 - 1)).bind fun n =>
+          if validRow n then rangeView v v.r1 v.c1 n v.c2 else none
+      else
+        (skipDown (rowHidden? sh) rowFuel (v.r1 - 1)).bind fun n =>
+          if validRow n then
+            if n < v.top then scrolledRange v n v.left n v.c1 v.r2 v.c2
+            else rangeView v n v.c1 v.r2 v.c2
+          else none
+    | .down =>
+      if v.row > v.r1 then
+        (skipUp (rowHidden? sh) LAST_ROW rowFuel (v.r1 + 1)).bind fun n =>
+          if validRow n then rangeView v n v.c1 v.r2 v.c2 else none
+      else
+        (skipUp (rowHidden? sh) LAST_ROW rowFuel (v.r2 + 1)).bind fun n =>
+          if validRow n then
+            (sumRange (rowH? sh) v.top (n + 1)).bind fun h =>
+              if h ≥ winH then scrolledRange v (v.top + 1) v.left v.r1 v.c1 n v.c2
+              else rangeView v v.r1 v.c1 n v.c2
+          else none
+
+def expand (s : State) (d : Dir) : State := viewOp s fun sh => expandView s.winW s.winH sh d
 
 /-! ### sheet operations of common.rs -/
 
@@ -688,7 +645,7 @@ def hideRows (s : State) (sheet : Nat) (a b : Int) (hidden : Bool) : State :=
       let sh1 := { sh with hidRows := hid }
       let s1 := modSheet s sheet (fun x => { x with hidRows := hid })
       if hidden && s.selected == sheet then
-        match afterHide (rowHidden? sh1) LAST_ROW 1048578 a b with
+        match afterHide (rowHidden? sh1) LAST_ROW rowFuel a b with
         | none => s1
         | some r => push (selRange (selCell s1 r 1) r 1 r LAST_COLUMN) (.setRowsHidden sheet olds hidden)
       else push s1 (.setRowsHidden sheet olds hidden)
@@ -704,7 +661,7 @@ def hideCols (s : State) (sheet : Nat) (a b : Int) (hidden : Bool) : State :=
       let sh1 := { sh with hidCols := hid }
       let s1 := modSheet s sheet (fun x => { x with hidCols := hid })
       if hidden && s.selected == sheet then
-        match afterHide (colHidden? sh1) LAST_COLUMN 16386 a b with
+        match afterHide (colHidden? sh1) LAST_COLUMN colFuel a b with
         | none => s1
         | some c => push (selRange (selCell s1 1 c) 1 c LAST_ROW c) (.setColsHidden sheet olds hidden)
       else push s1 (.setColsHidden sheet olds hidden)
